@@ -5,6 +5,18 @@
 //! list of distinct active keys up to length 3 (quick) / 4 (thorough) over the 13-key universe plus
 //! targeted full-combination lists. Observation point 2: the OS stream of a real `Kanata` driven
 //! through `Sim` with `override-release-on-activation` yes/no on random press/release histories.
+//!
+//! Layer mapping dimension (pipeline part): the base layer is a permutation of the 13-key universe, so
+//! a physical key may output a different key code (`defsrc a` / `deflayer b`), and the overrides are
+//! defined on the OUTPUT codes. Everything the statement talks about (the keys kanata is about to hold,
+//! the keys the OS sees) lives in output space; physical events are translated through the mapping.
+//! Three history families: 80 seed-independent cases (every (output key with an override) x (physical
+//! key that outputs it) pair x 4 combination shapes: full combination, OS repeats while held, release),
+//! random histories, and random histories preceded by one or two such targeted combinations.
+//! Repeat clauses: a repeat of the physical key whose output is replaced by an active override must be
+//! forwarded as one of that override's outputs; a repeat of a physical key whose output kanata holds
+//! and no override replaces must be forwarded as that key (not dropped, not some unrelated key).
+//! Violations on a physical key that outputs a different code carry the suffix `:remapped-key`.
 
 use crate::core::rng::Rng;
 use crate::core::sim::{code_name, osc, render_hist, Ev, OutKind, Sim};
@@ -170,14 +182,58 @@ fn systematic_table(i: u64) -> Vec<Ovr> {
     t
 }
 
-fn config(table_text: &str, roa: Option<bool>) -> String {
+/// Layer mapping: physical key `p` of the universe outputs key `map[p]` of the universe (a permutation).
+type Map = [usize; NK];
+
+fn identity_map() -> Map {
+    let mut m = [0usize; NK];
+    for (i, x) in m.iter_mut().enumerate() {
+        *x = i;
+    }
+    m
+}
+fn inverse(map: &Map) -> Map {
+    let mut inv = [0usize; NK];
+    for (p, o) in map.iter().enumerate() {
+        inv[*o] = p;
+    }
+    inv
+}
+fn is_identity(map: &Map) -> bool {
+    map.iter().enumerate().all(|(p, o)| p == *o)
+}
+/// kind 0: identity; 1: the non-modifiers permuted among themselves; 2: non-modifiers and modifiers each
+/// permuted among themselves; 3: one to three transpositions over the whole universe (a physical
+/// non-modifier may output a modifier and the other way round)
+fn random_map(rng: &mut Rng, kind: u64) -> Map {
+    let mut m = identity_map();
+    match kind {
+        0 => {}
+        1 => rng.shuffle(&mut m[..5]),
+        2 => {
+            rng.shuffle(&mut m[..5]);
+            rng.shuffle(&mut m[5..]);
+        }
+        _ => {
+            for _ in 0..1 + rng.usize(3) {
+                let a = rng.usize(NK);
+                let b = rng.usize(NK);
+                m.swap(a, b);
+            }
+        }
+    }
+    m
+}
+
+fn config(table_text: &str, roa: Option<bool>, map: &Map) -> String {
     let keys = (0..NK).map(key_name).collect::<Vec<_>>().join(" ");
+    let outs = (0..NK).map(|p| key_name(map[p])).collect::<Vec<_>>().join(" ");
     let roa = match roa {
         Some(true) => " override-release-on-activation yes",
         Some(false) => " override-release-on-activation no",
         None => "",
     };
-    format!("(defcfg process-unmapped-keys yes{roa})\n(defsrc {keys})\n(deflayer base {keys})\n{table_text}")
+    format!("(defcfg process-unmapped-keys yes{roa})\n(defsrc {keys})\n(deflayer base {outs})\n{table_text}")
 }
 
 fn mask_names(m: Mask) -> Vec<String> {
@@ -379,7 +435,7 @@ fn table_for(ctx: &Ctx, idx: u64) -> (Vec<Ovr>, Rng) {
 
 fn run_pure(out: &mut CaseOut, ctx: &Ctx, idx: u64) {
     let (table, mut rng) = table_for(ctx, idx);
-    let text = config(&render_table(&table, &mut rng), None);
+    let text = config(&render_table(&table, &mut rng), None, &identity_map());
     let cfg = match kanata_parser::cfg::new_from_str(&text, Default::default()) {
         Ok(c) => c,
         Err(e) => {
@@ -415,15 +471,74 @@ fn run_pure(out: &mut CaseOut, ctx: &Ctx, idx: u64) {
 
 // ------------------------------------------------------------------ pipeline
 
-fn run_pipeline(out: &mut CaseOut, ctx: &Ctx, r: u64) {
-    let mut rng = Rng::for_case(ctx.seed, "C13", "pipe", r);
-    let table = random_table(&mut rng);
-    let roa = r % 2 == 0;
-    let text = config(&render_table(&table, &mut rng), Some(roa));
-    let cs = codes();
-    // restrict the history to the keys of the table (+ x and one spare modifier) so that combinations occur
+/// number of seed-independent pipeline cases: (output key with an override: a b 1 9) x (physical key that
+/// outputs it: a b 1 9 x, the layer swaps the two) x 4 shapes of the combination
+const N_PIPE_SYS: u64 = 4 * 5 * 4;
+
+struct PipeCase {
+    table: Vec<Ovr>,
+    map: Map,
+    roa: bool,
+    text: String,
+    h: Vec<Ev>,
+    family: &'static str,
+    map_kind: u64,
+    pool_len: usize,
+}
+
+/// One entry's full combination typed modifiers first through the physical keys that output them, OS
+/// auto-repeats of the non-modifier's physical key while everything is held, then everything released.
+/// All gaps are >= 1 tick, so every event is processed before the next one arrives.
+fn targeted_history(rng: &mut Rng, o: &Ovr, inv: &Map, cs: &[u16; NK]) -> Vec<Ev> {
+    let mut h = vec![];
+    let mut mods: Vec<usize> = (0..8).filter(|i| o.in_mods & (1 << i) != 0).map(|i| i + 5).collect();
+    rng.shuffle(&mut mods);
+    let mut down: Vec<u16> = vec![];
+    for m in &mods {
+        h.push(Ev::P(cs[inv[*m]]));
+        down.push(cs[inv[*m]]);
+        h.push(Ev::T(1 + rng.usize(3) as u32));
+    }
+    let k = cs[inv[o.in_key]];
+    h.push(Ev::P(k));
+    down.push(k);
+    h.push(Ev::T(2 + rng.usize(3) as u32));
+    for _ in 0..1 + rng.usize(3) {
+        h.push(Ev::Rep(k));
+        h.push(Ev::T(1 + rng.usize(3) as u32));
+    }
+    if !mods.is_empty() && rng.chance(1, 3) {
+        h.push(Ev::Rep(cs[inv[mods[0]]]));
+        h.push(Ev::T(1));
+        h.push(Ev::Rep(k));
+        h.push(Ev::T(1));
+    }
+    rng.shuffle(&mut down);
+    for c in down {
+        h.push(Ev::R(c));
+        h.push(Ev::T(1 + rng.usize(3) as u32));
+    }
+    h.push(Ev::T(2));
+    h
+}
+
+/// Final drain: kanata consumes one queued event per tick, so a history with zero-tick gaps can end with
+/// a backlog; tick until every event has been consumed and 12 more ticks have passed.
+fn push_final_drain(h: &mut Vec<Ev>) {
+    let mut q: u32 = 0;
+    for e in h.iter() {
+        match e {
+            Ev::T(n) => q = q.saturating_sub(*n),
+            Ev::P(_) | Ev::R(_) => q += 1,
+            _ => {}
+        }
+    }
+    h.push(Ev::T(12 + q));
+}
+
+fn table_pool(table: &[Ovr]) -> BTreeSet<usize> {
     let mut pool: BTreeSet<usize> = BTreeSet::new();
-    for o in &table {
+    for o in table {
         pool.insert(o.in_key);
         for i in 0..8 {
             if o.in_mods & (1 << i) != 0 {
@@ -431,13 +546,76 @@ fn run_pipeline(out: &mut CaseOut, ctx: &Ctx, r: u64) {
             }
         }
     }
+    pool
+}
+
+fn pipe_case(ctx: &Ctx, r: u64) -> PipeCase {
+    let cs = codes();
+    if r < N_PIPE_SYS {
+        // seed-independent: output key q (has an override), physical key p outputs q and q's physical
+        // key outputs p's code (identity when p == q); a second entry overrides p's own code
+        let mut rng = Rng::new(r ^ 0xc13_5e);
+        let q = (r % 4) as usize;
+        let p = ((r / 4) % 5) as usize;
+        let v = r / 20;
+        let (in_mods, out_mods): (u8, u8) = match v {
+            0 => (0b0000_0010, 0b0000_0010), // (lsft q) -> (lsft out)
+            1 => (0, 0),                     // (q) -> (out)
+            2 => (0b0001_0010, 0b0000_0100), // (lsft rctl q) -> (lalt out)
+            _ => (0b0100_0000, 0),           // (ralt q) -> (out), release-on-activation
+        };
+        let mut table = vec![Ovr { in_mods, in_key: q, out_mods, out_key: (q + 1 + v as usize) % 5 }];
+        if p != q && p < 4 {
+            table.push(Ovr { in_mods, in_key: p, out_mods: 0, out_key: (p + 2) % 5 });
+        }
+        let mut map = identity_map();
+        map.swap(p, q);
+        let inv = inverse(&map);
+        let roa = v == 3;
+        let text = config(&render_table(&table, &mut rng), Some(roa), &map);
+        let mut h = vec![];
+        for o in &table {
+            h.extend(targeted_history(&mut rng, o, &inv, &cs));
+        }
+        let mut pool = table_pool(&table);
+        pool.insert(4);
+        let pool_codes: Vec<u16> = pool.iter().map(|i| cs[inv[*i]]).collect();
+        h.extend(hist::consistent(&mut rng, &pool_codes, 12, &[1, 1, 2, 3], true));
+        push_final_drain(&mut h);
+        return PipeCase { table, map, roa, text, h, family: "systematic", map_kind: if p == q { 0 } else { 4 }, pool_len: pool.len() };
+    }
+    let mut rng = Rng::for_case(ctx.seed, "C13", "pipe", r);
+    let table = random_table(&mut rng);
+    let roa = r % 2 == 0;
+    let map_kind = (r / 2) % 4;
+    let map = random_map(&mut rng, map_kind);
+    let inv = inverse(&map);
+    let text = config(&render_table(&table, &mut rng), Some(roa), &map);
+    // restrict the history to the physical keys that output the keys of the table (+ x and one spare
+    // modifier) so that combinations occur
+    let mut pool = table_pool(&table);
     pool.insert(4);
     pool.insert(5 + rng.usize(8));
-    let pool_codes: Vec<u16> = pool.iter().map(|i| cs[*i]).collect();
+    let pool_codes: Vec<u16> = pool.iter().map(|i| cs[inv[*i]]).collect();
     let gaps: &[u32] = if r % 5 == 0 { &[0, 1, 1, 2, 3] } else { &[1, 1, 2, 3, 6] };
     let n_ev = 10 + rng.usize(ctx.tier.sel(30, 60));
-    let mut h = hist::consistent(&mut rng, &pool_codes, n_ev, gaps, true);
-    h.push(Ev::T(12));
+    let targeted = (r / 8) % 2 == 1;
+    let mut h = vec![];
+    if targeted {
+        for _ in 0..1 + rng.usize(2) {
+            let o = rng.pick(&table).clone();
+            h.extend(targeted_history(&mut rng, &o, &inv, &cs));
+        }
+    }
+    h.extend(hist::consistent(&mut rng, &pool_codes, n_ev, gaps, true));
+    push_final_drain(&mut h);
+    PipeCase { table, map, roa, text, h, family: if targeted { "targeted+random" } else { "random" }, map_kind, pool_len: pool.len() }
+}
+
+fn run_pipeline(out: &mut CaseOut, ctx: &Ctx, r: u64) {
+    let PipeCase { table, map, roa, text, h, family, map_kind, pool_len } = pipe_case(ctx, r);
+    let cs = codes();
+    let inv = inverse(&map);
     let mut sim = match Sim::new(&text) {
         Ok(s) => s,
         Err(e) => {
@@ -451,14 +629,24 @@ fn run_pipeline(out: &mut CaseOut, ctx: &Ctx, r: u64) {
         return;
     };
     out.inc(if roa { "pipeline_histories_release_on_activation_yes" } else { "pipeline_histories_release_on_activation_no" });
-    out.tag(format!("pipe:roa={roa}:entries={}:pool={}", table.len(), pool.len()));
+    out.tag(format!("pipe:{family}:roa={roa}:map={map_kind}:entries={}:pool={pool_len}", table.len()));
+    out.inc(&format!("pipeline_histories_{}", family.replace('+', "_")));
+    if !is_identity(&map) {
+        out.inc("pipeline_histories_with_remapped_keys");
+        if table.iter().any(|o| inv[o.in_key] != o.in_key) {
+            out.inc("pipeline_histories_override_on_output_of_remapped_key");
+        }
+    }
     let names: Vec<String> = cs.iter().map(|c| code_name(*c)).collect();
     let idx_of_code = |c: u16| cs.iter().position(|x| *x == c);
+    // physical key code -> universe index of the key it outputs
+    let out_of_code = |c: u16| cs.iter().position(|x| *x == c).map(|p| map[p]);
     let mut pending: VecDeque<Ev> = VecDeque::new();
-    let mut phys: Mask = 0; // processed physical state
+    let mut phys: Mask = 0; // processed physical state, as the set of keys the held physical keys output
     let mut erased: Mask = 0; // non-modifiers that were overridden since their press
     let mut prev_removed: Mask = 0;
     let mut prev_added: Mask = 0;
+    let mut prev_km: Mask = 0; // keys kanata held in the last judged tick
     let mut reported = false;
     let mut reported_rep = false;
     let mut prev_ok = false;
@@ -482,43 +670,78 @@ fn run_pipeline(out: &mut CaseOut, ctx: &Ctx, r: u64) {
                 out.inc("pipeline_repeat_inputs");
                 let outs: Vec<crate::core::sim::Out> = sim.last().to_vec();
                 let settled = pending.is_empty() && judged_ok && prev_ok && prev_stable;
-                let i = idx_of_code(*c);
+                let pk = idx_of_code(*c); // physical key
+                let i = pk.map(|p| map[p]); // the key it outputs
+                let remapped = pk != i;
+                let sfx = if remapped { ":remapped-key" } else { "" };
+                let pname = |i: usize| -> String {
+                    if remapped {
+                        format!("physical {} (outputs {})", key_name(inv[i]), key_name(i))
+                    } else {
+                        key_name(i).to_string()
+                    }
+                };
                 let name_mask = |n: &str| -> Mask { names.iter().position(|x| x == n).map(|p| 1 << p).unwrap_or(0x8000) };
-                let mut rep_dev: Option<(&str, String)> = None;
+                let mut rep_dev: Option<(String, String)> = None;
                 for o in &outs {
                     out.inc("pipeline_repeat_outputs");
                     let m = name_mask(&o.name);
                     let down = sim.os.keys_down.contains(&o.name);
                     if o.kind != OutKind::Repeat {
-                        rep_dev = Some(("C13:pipeline:repeat-produced-other-output", format!("a Repeat input produced {}", o.short())));
+                        rep_dev = Some(("C13:pipeline:repeat-produced-other-output".into(), format!("a Repeat input produced {}", o.short())));
                     } else if !prev_stable || !pending.is_empty() {
                         // the held keys changed since the last tick (queued event, or a key removed by
                         // release-on-activation): the OS model lags until the next tick, not judged
                         out.inc("pipeline_repeat_outputs_in_transient_not_judged");
                     } else if !down && m & prev_removed & !prev_added != 0 {
-                        rep_dev = Some(("C13:pipeline:repeat-of-replaced-key", format!("repeat forwarded for {} which the active override replaced (it is up at the OS)", o.name)));
+                        rep_dev = Some(("C13:pipeline:repeat-of-replaced-key".into(), format!("repeat forwarded for {} which the active override replaced (it is up at the OS)", o.name)));
                     } else if !down {
-                        rep_dev = Some(("C13:pipeline:repeat-of-up-key", format!("repeat forwarded for {} which is up at the OS", o.name)));
+                        rep_dev = Some(("C13:pipeline:repeat-of-up-key".into(), format!("repeat forwarded for {} which is up at the OS", o.name)));
                     }
                 }
                 if let (Some(i), true, None) = (i, settled, &rep_dev) {
+                    // every output any override of the output key can have (kanata chooses among them)
+                    let possible: Mask = table.iter().filter(|o| o.in_key == i).fold(0, |m, o| m | mods_to_mask(o.out_mods) | (1 << o.out_key));
                     if !is_mod(i) && prev_removed & (1 << i) != 0 {
-                        // the physical key is the non-modifier of an active override
+                        // the key this physical key outputs is the non-modifier of an active override
                         out.inc("pipeline_repeats_during_active_override");
-                        // kanata chooses among all outputs any override of this key can have
-                        let possible: Mask = table.iter().filter(|o| o.in_key == i).fold(0, |m, o| m | mods_to_mask(o.out_mods) | (1 << o.out_key));
+                        if remapped {
+                            out.inc("pipeline_repeats_during_active_override_remapped_key");
+                        }
                         let ok = outs.len() == 1 && name_mask(&outs[0].name) & prev_added != 0;
                         if ok {
                             out.inc("pipeline_repeats_forwarded_for_override_output");
+                            if remapped {
+                                out.inc("pipeline_repeats_forwarded_for_override_output_remapped_key");
+                            }
                         } else if outs.len() == 1 && name_mask(&outs[0].name) & possible != 0 {
                             // down at the OS (checked above) and an output of another entry for this key
                             out.inc("pipeline_repeats_forwarded_as_other_entry_output");
                         } else if outs.is_empty() {
-                            rep_dev = Some(("C13:pipeline:repeat-not-forwarded", format!("repeat of {} while its override is active produced nothing; expected a repeat of one of {:?}", key_name(i), mask_names(prev_added))));
+                            rep_dev = Some((format!("C13:pipeline:repeat-not-forwarded{sfx}"), format!("repeat of {} while its override is active produced nothing; expected a repeat of one of {:?}", pname(i), mask_names(prev_added))));
                         } else {
-                            rep_dev = Some(("C13:pipeline:repeat-of-wrong-key", format!("repeat of {} while its override is active was forwarded as {:?}; expected one of {:?}", key_name(i), outs.iter().map(|o| o.short()).collect::<Vec<_>>(), mask_names(prev_added))));
+                            rep_dev = Some((format!("C13:pipeline:repeat-of-wrong-key{sfx}"), format!("repeat of {} while its override is active was forwarded as {:?}; expected one of {:?}", pname(i), outs.iter().map(|o| o.short()).collect::<Vec<_>>(), mask_names(prev_added))));
                         }
-                    } else if prev_removed == 0 && phys & (1 << i) != 0 {
+                    } else if prev_removed & (1 << i) == 0 && prev_km & (1 << i) != 0 {
+                        // kanata holds the key this physical key outputs and no active override replaces it:
+                        // the OS sees the key itself, repeats included (an output of another entry for the
+                        // same key that happens to be down is tolerated, as above)
+                        out.inc("pipeline_repeats_of_key_not_overridden");
+                        if remapped {
+                            out.inc("pipeline_repeats_of_key_not_overridden_remapped_key");
+                        }
+                        let allowed: Mask = (1 << i) | possible;
+                        if outs.len() == 1 && name_mask(&outs[0].name) == 1 << i {
+                            out.inc("pipeline_repeats_forwarded_for_the_key_itself");
+                        } else if outs.len() == 1 && name_mask(&outs[0].name) & allowed != 0 {
+                            out.inc("pipeline_repeats_forwarded_as_other_entry_output");
+                        } else if outs.is_empty() {
+                            rep_dev = Some((format!("C13:pipeline:repeat-not-forwarded:no-override-active{sfx}"), format!("repeat of {} which kanata holds down and no override replaces produced nothing", pname(i))));
+                        } else {
+                            rep_dev = Some((format!("C13:pipeline:repeat-of-wrong-key:no-override-active{sfx}"), format!("repeat of {} which no override replaces was forwarded as {:?}", pname(i), outs.iter().map(|o| o.short()).collect::<Vec<_>>())));
+                        }
+                    }
+                    if prev_removed == 0 && phys & (1 << i) != 0 {
                         out.inc("pipeline_repeats_without_override");
                     }
                 }
@@ -526,7 +749,7 @@ fn run_pipeline(out: &mut CaseOut, ctx: &Ctx, r: u64) {
                     if !reported_rep {
                         reported_rep = true;
                         let prefix: Vec<Ev> = h[..=ei].to_vec();
-                        out.violate(sig, what, witness(&sim, json!({"observed": outs.iter().map(|o| o.short()).collect::<Vec<_>>(), "expected": format!("a repeat of a key that is down at the OS ({:?}); for the non-modifier of an active override one of {:?}", sim.os.keys_down, mask_names(prev_added)), "replaced_keys": mask_names(prev_removed)}), &prefix, &text));
+                        out.violate(sig, what, witness(&sim, json!({"physical_key": pk.map(key_name), "outputs_key": i.map(key_name), "observed": outs.iter().map(|o| o.short()).collect::<Vec<_>>(), "expected": format!("a repeat of a key that is down at the OS ({:?}); for the non-modifier of an active override one of {:?}", sim.os.keys_down, mask_names(prev_added)), "replaced_keys": mask_names(prev_removed)}), &prefix, &text));
                     }
                 }
                 0
@@ -551,13 +774,16 @@ fn run_pipeline(out: &mut CaseOut, ctx: &Ctx, r: u64) {
             }
             match &consumed {
                 Some(Ev::P(c)) => {
-                    if let Some(i) = idx_of_code(*c) {
+                    if let Some(i) = out_of_code(*c) {
                         phys |= 1 << i;
                         erased &= !(1 << i);
+                        if inv[i] != i {
+                            out.inc("pipeline_presses_of_remapped_keys");
+                        }
                     }
                 }
                 Some(Ev::R(c)) => {
-                    if let Some(i) = idx_of_code(*c) {
+                    if let Some(i) = out_of_code(*c) {
                         phys &= !(1 << i);
                         erased &= !(1 << i);
                     }
@@ -581,7 +807,7 @@ fn run_pipeline(out: &mut CaseOut, ctx: &Ctx, r: u64) {
             prev_stable = true;
             if roa {
                 if let Some(Ev::P(c)) = &consumed {
-                    if let Some(i) = idx_of_code(*c) {
+                    if let Some(i) = out_of_code(*c) {
                         if !is_mod(i) && !k_list.contains(&i) {
                             // activated and released at once by override-release-on-activation
                             k_list.push(i);
@@ -607,6 +833,9 @@ fn run_pipeline(out: &mut CaseOut, ctx: &Ctx, r: u64) {
                 out.inc("pipeline_ticks_with_active_override");
                 if removed != prev_removed {
                     out.inc("pipeline_activations");
+                    if (0..5).any(|k| removed & !prev_removed & (1 << k) != 0 && inv[k] != k) {
+                        out.inc("pipeline_activations_by_remapped_key");
+                    }
                     out.inc(&format!("pipeline_activation_chord_size_{}", (removed >> 5).count_ones() + 1));
                 }
             }
@@ -670,9 +899,10 @@ fn run_pipeline(out: &mut CaseOut, ctx: &Ctx, r: u64) {
             }
             prev_removed = removed;
             prev_added = added;
+            prev_km = km;
         }
     }
-    // everything is physically released and 12 ticks have passed
+    // everything is physically released, every queued event was consumed and 12 more ticks have passed
     if !sim.os.all_up() || sim.k.layout.b().keycodes().next().is_some() {
         out.violate(
             "C13:pipeline:stuck-at-end",
@@ -697,9 +927,10 @@ impl Check for C13Check {
     fn describe(&self, ctx: &Ctx, idx: u64) -> Value {
         if idx < n_pure(ctx) {
             let (t, mut rng) = table_for(ctx, idx);
-            json!({"part": "pure", "config": config(&render_table(&t, &mut rng), None)})
+            json!({"part": "pure", "config": config(&render_table(&t, &mut rng), None, &identity_map())})
         } else {
-            json!({"part": "pipeline", "case": idx - n_pure(ctx)})
+            let pc = pipe_case(ctx, idx - n_pure(ctx));
+            json!({"part": "pipeline", "case": idx - n_pure(ctx), "family": pc.family, "config": pc.text, "history": render_hist(&pc.h)})
         }
     }
     fn run_case(&self, ctx: &Ctx, idx: u64) -> CaseOut {
@@ -712,7 +943,7 @@ impl Check for C13Check {
         out
     }
     fn rule(&self) -> String {
-        "Pure part: one override table per case, written as configuration text and parsed by the real parser (256 seed-independent tables: every subset of the 8 modifiers as the input modifiers of an override of `a`, with a shorter combination listed before and after it; then random tables of 1-7 entries over non-modifiers {a,b,1,9} with random modifier subsets on both sides, half of them extending/shrinking another entry's combination). For each table, exhaustively every ordered list of distinct keys of length <= 3 (quick) / <= 4 (thorough) over {a,b,1,9,x} + the 8 modifiers, plus targeted lists (each entry's full combination in several orders, with an unrelated key, an extra modifier, a second non-modifier), is passed to Overrides::override_keys and the resulting key set compared with the set-based specification. Pipeline part: random tables, override-release-on-activation alternating yes/no, physically consistent random press/release histories over the keys of the table; after every tick the set of keys the OS holds must equal the specification applied to the keys kanata holds in that tick (Layout::keycodes, plus the key just removed by release-on-activation), kanata's held keys must be consistent with the physical keys, and at the end nothing may be held; the histories also contain OS auto-repeat events for held keys: every repeat output must be for a key that is down at the OS, and a repeat of the non-modifier of an active override must be forwarded for one of the override's output keys, never for the replaced key. Non-trivial = table accepted; distinct = distinct table shape (modifier counts per entry) / pipeline class.".into()
+        "Pure part: one override table per case, written as configuration text and parsed by the real parser (256 seed-independent tables: every subset of the 8 modifiers as the input modifiers of an override of `a`, with a shorter combination listed before and after it; then random tables of 1-7 entries over non-modifiers {a,b,1,9} with random modifier subsets on both sides, half of them extending/shrinking another entry's combination). For each table, exhaustively every ordered list of distinct keys of length <= 3 (quick) / <= 4 (thorough) over {a,b,1,9,x} + the 8 modifiers, plus targeted lists (each entry's full combination in several orders, with an unrelated key, an extra modifier, a second non-modifier), is passed to Overrides::override_keys and the resulting key set compared with the set-based specification. Pipeline part: override-release-on-activation alternating yes/no; the base layer maps the 13 physical keys to a permutation of the same 13 key codes (identity / non-modifiers permuted / non-modifiers and modifiers each permuted / 1-3 arbitrary transpositions, a quarter of the random cases each) and the overrides are defined on the output codes; 80 seed-independent cases enumerate every pair (output key a,b,1,9 that has an override) x (physical key a,b,1,9,x that outputs it, the layer swaps the two; a second entry overrides the physical key's own code) x 4 combination shapes, each typing the full combination modifiers-first, sending OS repeats of the non-modifier's physical key while it is held, and releasing everything; the other cases use random tables with physically consistent random press/release/repeat histories over the physical keys that output the keys of the table, half of them preceded by one or two such targeted combinations; after every tick the set of keys the OS holds must equal the specification applied to the keys kanata holds in that tick (Layout::keycodes, plus the key just removed by release-on-activation), kanata's held keys must be consistent with the physical keys, and at the end nothing may be held; the histories also contain OS auto-repeat events for held keys: every repeat output must be for a key that is down at the OS, a repeat of the physical key whose output is the non-modifier of an active override must be forwarded for one of the override's output keys, never for the replaced key, and a repeat of a physical key whose output kanata holds and no active override replaces must be forwarded as that key (or as a down output of another entry for the same key), never dropped and never as an unrelated key; repeat violations on a physical key that outputs a different code get the suffix :remapped-key. Non-trivial = table accepted; distinct = distinct table shape (modifier counts per entry) / pipeline class.".into()
     }
     fn assumptions(&self) -> Vec<String> {
         vec![
@@ -721,6 +952,8 @@ impl Check for C13Check {
             "overrides are applied once to the keys kanata is about to hold; an override's output is not itself overridden again".into(),
             "pipeline: 'the keys kanata is about to hold down' is read from Layout::keycodes() after each tick; with override-release-on-activation yes the overridden non-modifier is removed inside the tick, so it is added back from the input event consumed in that tick (one queued event per tick, checked against Layout.queue.len())".into(),
             "pipeline: kanata deliberately drops an overridden non-modifier's key state at the next action/release (eager erasure); such keys are exempt from the 'physically held keys stay held' check from their first override until their release".into(),
+            "layer mapping: only injective mappings (permutations of the universe, plain key actions) are generated, so every output key has exactly one physical key; two physical keys that output the same code, and richer actions (chords, tap-hold, ...) as override inputs, are not judged here (C14 covers repeat forwarding for action forms)".into(),
+            "repeats are judged for completeness only from a settled state: no queued event, the previous tick's OS set equal to the specification (so ticks showing the known order deviation are excluded), no key removed by release-on-activation in that tick. kanata's repeat table lists a key's own code and the non-modifier outputs of every override of that code and takes the first that is down, so a repeat forwarded as a down output of another entry for the same key is tolerated (counted as pipeline_repeats_forwarded_as_other_entry_output)".into(),
             "known deviation (DESIGN §6 #9): the implementation is order-sensitive; a deviation is classified as that class exactly when a non-modifier precedes a modifier in the list and the same keys listed modifiers-first give a specified result".into(),
         ]
     }
@@ -744,6 +977,17 @@ impl Check for C13Check {
             ("pipeline_repeat_inputs", 10_000),
             ("pipeline_repeats_during_active_override", 200),
             ("pipeline_repeats_forwarded_for_override_output", 200),
+            ("pipeline_histories_systematic", N_PIPE_SYS),
+            ("pipeline_histories_targeted_random", 1_000),
+            ("pipeline_histories_with_remapped_keys", 2_000),
+            ("pipeline_histories_override_on_output_of_remapped_key", 1_000),
+            ("pipeline_presses_of_remapped_keys", 10_000),
+            ("pipeline_activations_by_remapped_key", 1_000),
+            ("pipeline_repeats_during_active_override_remapped_key", 500),
+            ("pipeline_repeats_forwarded_for_override_output_remapped_key", 500),
+            ("pipeline_repeats_of_key_not_overridden", 2_000),
+            ("pipeline_repeats_of_key_not_overridden_remapped_key", 1_000),
+            ("pipeline_repeats_forwarded_for_the_key_itself", 2_000),
         ]
     }
     fn exhaustive(&self, _ctx: &Ctx) -> bool {
